@@ -109,6 +109,8 @@ pub tracked struct World {
     /// engine steps of the main block
     pub ghost steps: Seq<Step>,
     pub ghost run_failed: bool,
+    /// the configuration was loaded and the requested targets resolved (set by a ghost assignment in `main` right after `try_into_domain_targets` returned Ok)
+    pub ghost resolved: bool,
 }
 /// the files the listing denotes for an output resource with extensions (A-fs; the same function feeds the checksums)
 pub uninterp spec fn listing(paths: Seq<PathBuf>, e: FileExtensions) -> Set<PathBuf>;
@@ -185,7 +187,7 @@ pub proof fn lemma_push_allowed(d0: Seq<Del>, d1: Seq<Del>, t: Target, x: Del)
 //@fn src/clean.rs clean_path ret=r
 //@contract
     ensures
-        final(w).steps == old(w).steps, final(w).run_failed == old(w).run_failed,
+        final(w).steps == old(w).steps, final(w).run_failed == old(w).run_failed, final(w).resolved == old(w).resolved,
         /*[C12.complete]*/ final(w).probed == old(w).probed.push(path.buf()),
         /*[C12.frame]*/ final(w).deleted == old(w).deleted || final(w).deleted == old(w).deleted.push(Del::File(path.buf())) || final(w).deleted == old(w).deleted.push(Del::DirAll(path.buf())),
 //@end
@@ -193,7 +195,7 @@ pub proof fn lemma_push_allowed(d0: Seq<Del>, d1: Seq<Del>, t: Target, x: Del)
 //@fn src/clean.rs clean_target_output_paths ret=r
 //@contract
     ensures
-        final(w).steps == old(w).steps, final(w).run_failed == old(w).run_failed,
+        final(w).steps == old(w).steps, final(w).run_failed == old(w).run_failed, final(w).resolved == old(w).resolved,
         /*[C12.frame]*/ new_dels_allowed(old(w).deleted, final(w).deleted, *target),
         /*[C12.frame]*/ target.out() is None ==> final(w).deleted == old(w).deleted,
 //@pre
@@ -202,7 +204,7 @@ pub proof fn lemma_push_allowed(d0: Seq<Del>, d1: Seq<Del>, t: Target, x: Del)
         let ghost d0 = w.deleted;
 //@loop 0 binder=it0
             invariant
-                w.steps == old(w).steps, w.run_failed == old(w).run_failed,
+                w.steps == old(w).steps, w.run_failed == old(w).run_failed, w.resolved == old(w).resolved,
                 /*[C12.frame]*/ target.out() == Some(output),
                 it0.seq().unref() == output.files@,
                 new_dels_allowed(old(w).deleted, w.deleted, *target),
@@ -212,7 +214,7 @@ pub proof fn lemma_push_allowed(d0: Seq<Del>, d1: Seq<Del>, t: Target, x: Del)
             proof { assert(it0.seq().unref()[it0.index@ as int] == *resource); }
 //@loop 1 binder=it1 set-owned
                     invariant
-                        w.steps == old(w).steps, w.run_failed == old(w).run_failed,
+                        w.steps == old(w).steps, w.run_failed == old(w).run_failed, w.resolved == old(w).resolved,
                         target.out() == Some(output),
                         0 <= it0.index@ < output.files@.len() && output.files@[it0.index@ as int] == *resource,
                         /*[C12.frame]*/ resource.extensions is Some,
@@ -230,7 +232,7 @@ pub proof fn lemma_push_allowed(d0: Seq<Del>, d1: Seq<Del>, t: Target, x: Del)
                     }
 //@loop 2 binder=it2
                     invariant
-                        w.steps == old(w).steps, w.run_failed == old(w).run_failed,
+                        w.steps == old(w).steps, w.run_failed == old(w).run_failed, w.resolved == old(w).resolved,
                         target.out() == Some(output),
                         0 <= it0.index@ < output.files@.len() && output.files@[it0.index@ as int] == *resource,
                         /*[C12.frame]*/ resource.extensions is None,
@@ -258,7 +260,7 @@ pub proof fn lemma_push_allowed(d0: Seq<Del>, d1: Seq<Del>, t: Target, x: Del)
 //@fn src/work_dir.rs remove_work_dir ret=r
 //@contract
     ensures
-        final(w).steps == old(w).steps, final(w).run_failed == old(w).run_failed, final(w).probed == old(w).probed,
+        final(w).steps == old(w).steps, final(w).run_failed == old(w).run_failed, final(w).resolved == old(w).resolved, final(w).probed == old(w).probed,
         /*[C12.frame,C12.state]*/ final(w).deleted == old(w).deleted.push(Del::DirAll(work_dir_of(project_dir.buf()))),
 //@end
 
@@ -354,6 +356,7 @@ pub proof fn lemma_any_extend(d0: Seq<Del>, d1: Seq<Del>, d2: Seq<Del>, ts: Map<
         old(w).steps.len() == 0, !old(w).run_failed,
         forall|id: TargetId| #![trigger targets@[id]] targets@.contains_key(id) ==> targets@[id].meta().id == id,
     ensures
+        final(w).resolved == old(w).resolved,
         /*[C12.off]*/ !arg_matches.has(CLEAN@) ==> final(w).deleted == old(w).deleted,
         /*[C12.scope,C12.frame,C08.clean-scope]*/ all_new_any(old(w).deleted, final(w).deleted, targets@, project_dirs@, requested_targets is Some),
         /*[C10.main-order,C07.exit]*/ final(w).steps.len() > 0 ==> final(w).steps =~= seq![Step::Run, Step::Terminate],
@@ -368,7 +371,7 @@ pub proof fn lemma_any_extend(d0: Seq<Del>, d1: Seq<Del>, d2: Seq<Del>, ts: Map<
         let ghost named = requested_targets is Some;
 //@loop 0 binder=it0
                     invariant
-                        ts == targets@, w.steps.len() == 0, !w.run_failed,
+                        ts == targets@, w.steps.len() == 0, !w.run_failed, w.resolved == old(w).resolved,
                         /*[C12.scope]*/ named,
                         it0.seq().unref().to_set() == targets@.values(),
                         all_new_any(old(w).deleted, w.deleted, ts, dirs, named),
@@ -383,7 +386,7 @@ pub proof fn lemma_any_extend(d0: Seq<Del>, d1: Seq<Del>, d2: Seq<Del>, ts: Map<
                     }
 //@loop 1 binder=it1
                     invariant
-                        ts == targets@, w.steps.len() == 0, !w.run_failed,
+                        ts == targets@, w.steps.len() == 0, !w.run_failed, w.resolved == old(w).resolved,
                         /*[C12.scope]*/ !named,
                         it1.seq() == dirs,
                         all_new_any(old(w).deleted, w.deleted, ts, dirs, named),
@@ -394,7 +397,7 @@ pub proof fn lemma_any_extend(d0: Seq<Del>, d1: Seq<Del>, d2: Seq<Del>, ts: Map<
                     }
 //@loop 2 binder=it2
                 invariant
-                    ts == targets@, w.steps.len() == 0, !w.run_failed,
+                    ts == targets@, w.steps.len() == 0, !w.run_failed, w.resolved == old(w).resolved,
                     it2.seq().unref().to_set() == targets@.values(),
                     all_new_any(old(w).deleted, w.deleted, ts, dirs, named),
 //@loopbody
@@ -409,6 +412,87 @@ pub proof fn lemma_any_extend(d0: Seq<Del>, d1: Seq<Del>, d2: Seq<Del>, ts: Map<
                         lemma_any_extend(old(w).deleted, d1, d2, ts, dirs, named, id);
                     }
                 }
+//@end
+
+// ===========================================================================
+// main(): load, resolve, then (and only then) clean / run
+// ===========================================================================
+#[verifier::external_body]
+pub struct App { _p: () }
+#[verifier::external_body]
+pub struct YamlConfig { _p: () }
+#[verifier::external_body]
+pub struct IrConfig { _p: () }
+impl IrConfig {
+    pub uninterp spec fn root(&self) -> Option<String>;
+}
+/// `cli::get_app().get_matches()` (A-clap)
+#[verifier::external_body]
+pub fn get_app() -> App { unimplemented!() }
+impl App {
+    #[verifier::external_body]
+    pub fn get_matches(self) -> ArgMatches { unimplemented!() }
+}
+/// `stderrlog::new().module(..).verbosity(..).init().unwrap()`
+#[verifier::external_body]
+pub fn init_logging(m: &ArgMatches) { unimplemented!() }
+/// `cli::get_app().mut_arg(TARGETS, |arg| arg.possible_values(names).required_unless(CLEAN)).get_matches()` (A-clap):
+/// the requested names are among the offered ones
+#[verifier::external_body]
+pub fn get_matches_for(names: &Vec<String>) -> ArgMatches { unimplemented!() }
+impl ArgMatches {
+    #[verifier::external_body]
+    pub fn root_dir(&self) -> PathBuf { unimplemented!() }
+    /// `values_of_lossy(TARGETS)`
+    #[verifier::external_body]
+    pub fn values_of_lossy(&self, name: &str) -> Option<Vec<String>> { unimplemented!() }
+}
+pub const TARGETS: &'static str = "targets";
+/// `yaml::Config::load` (verified in CFG: Ok only for a consistent, uniquely named set of projects) — no effect on the world
+#[verifier::external_body]
+pub fn yaml_load(dir: &PathBuf) -> Result<YamlConfig> { unimplemented!() }
+impl YamlConfig {
+    #[verifier::external_body]
+    pub fn get_project_dirs(&self) -> Vec<PathBuf> { unimplemented!() }
+}
+/// `config.into()` (`From<yaml::Config> for ir::Config`, verified in CFG)
+#[verifier::external_body]
+pub fn ir_from(c: YamlConfig) -> IrConfig { unimplemented!() }
+impl IrConfig {
+    #[verifier::external_body]
+    pub fn list_all_available_target_names(&self) -> Vec<String> { unimplemented!() }
+    #[verifier::external_body]
+    pub fn list_all_targets(&self) -> Vec<TargetId> { unimplemented!() }
+    #[verifier::external_body]
+    pub fn root_project_name(&self) -> (r: &Option<String>) ensures *r == self.root() { unimplemented!() }
+    /// `try_into_domain_targets` (verified in CFG: closed, keyed by each target's own id)
+    #[verifier::external_body]
+    pub fn try_into_domain_targets(self, roots: &Vec<TargetId>) -> (r: Result<HashMap<TargetId, Target>>)
+        ensures r matches Ok(m) ==> forall|id: TargetId| #![trigger m@[id]] m@.contains_key(id) ==> m@[id].meta().id == id,
+    { unimplemented!() }
+}
+/// `TargetId::try_parse_many(requested, &root).unwrap()`: clap only lets through names it was offered, and
+/// every offered name parses (A-clap + C19.parse)
+#[verifier::external_body]
+pub fn parse_requested(names: &Vec<String>, root: &Option<String>) -> Vec<TargetId> { unimplemented!() }
+
+//@fn src/main.rs main ret=r as=zinoma_main
+//@replace `stderrlog::new()\n        .module(module_path!())\n        .verbosity(arg_matches.occurrences_of(cli::arg::VERBOSITY) as usize + 2)\n        .init()\n        .unwrap();` => `init_logging(&arg_matches);\n\n\n\n` rule=R2 pre why=`logger initialisation: no contract mentions logging`
+//@replace `std::path::PathBuf::from(arg_matches.value_of(cli::arg::PROJECT_DIR).unwrap());` => `arg_matches.root_dir();` rule=R11 pre why=`the -p argument as a path (clap accessor, A-clap)`
+//@replace `yaml::Config::load(&root_project_dir)?` => `yaml_load(&root_project_dir)?` rule=R11 pre why=`flat namespace: yaml::Config::load is the CFG unit's function, a stub here`
+//@replace `let config: ir::Config = config.into();` => `let config: IrConfig = ir_from(config);` rule=R15 pre why=`.into() written as the From impl it resolves to`
+//@replace `TargetId::try_parse_many(requested_targets, &config.root_project_name).unwrap()` => `parse_requested(requested_targets, config.root_project_name())` rule=R15 pre why=`parse + unwrap of names clap has already validated (A-clap)`
+//@closure 0 skeleton=`let arg_matches = cli::get_app() .mut_arg(cli::arg::TARGETS, <CLOSURE>) .get_matches();` becomes=`let arg_matches = get_matches_for(&all_target_names);`
+//@closure 1 skeleton=`task::block_on(<CLOSURE>)` becomes=`main_block(&arg_matches, &requested_targets, targets, project_dirs, root_target_ids, Tracked(w))`
+//@contract
+    requires
+        old(w).steps.len() == 0, !old(w).run_failed,
+    ensures
+        /*[C09.before-effects,C14.before-effects]*/ final(w).deleted != old(w).deleted || final(w).steps.len() > 0 ==> final(w).resolved,
+        /*[C10.main-order,C07.exit]*/ final(w).steps.len() > 0 ==> final(w).steps =~= seq![Step::Run, Step::Terminate],
+        /*[C07.exit]*/ final(w).run_failed ==> r is Err,
+//@after 0 `let targets = config.try_into_domain_targets(&root_target_ids)?;`
+    proof { w.resolved = true; }
 //@end
 
 //@include footer.rs
